@@ -1,6 +1,8 @@
 import ShellOp.Proofs.Informer
 import ShellOp.Proofs.InformerReplay
 import ShellOp.Proofs.MonitorEnable
+import ShellOp.Props.C07
+import ShellOp.Proofs.SnapshotCache
 /-!
 # C01 — no cluster change is lost between Synchronization and later Events
 
@@ -239,4 +241,179 @@ theorem r4_unrepaired_flag_after_range_leaves_namespace_locked :
       [.ea, .ea, .ea, .nsStore 1, .nsRead 1, .ea]
     Settled s ∧ ¬ AllEnabled s := by decide
 
+/-- **C01 (namespaces that go away and come back).** `live` is the set of matching namespaces that
+exist according to the namespace informer's own Added/Deleted events (a ghost: it is updated by the
+cluster's history alone, never by the guards of the callbacks). For every interleaving of the
+unlock with namespace add callbacks (two steps each) and namespace delete callbacks, over every
+history of namespaces appearing, disappearing and re-appearing under the same name: once
+everything has come to rest, every live namespace has informers registered in `VaryingInformers`
+and they are unlocked — so (informer level) every later change there reaches the hook. -/
+theorem live_namespaces_watched (st : List Bool) (nss : List Nat) (sched : List MAct) :
+    Settled (run true (initial st nss) sched) → LiveWatched (run true (initial st nss) sched) := by
+  have g := good_run _ sched (good_of_start (initial st nss) rfl rfl)
+  have t := tracks_run true _ sched (tracks_initial st nss)
+  generalize run true (initial st nss) sched = s at g t
+  rintro ⟨hd, hi⟩ n hn
+  have hk := t.watched n hn
+  simp only [keys, List.mem_map] at hk
+  obtain ⟨p, hp, rfl⟩ := hk
+  refine ⟨p, hp, rfl, ?_⟩
+  rcases g.finished hd p hp with h | h
+  · exact h
+  · rw [hi] at h; simp at h
+
+/-- The ghost is honest: an Added namespace is live whatever the callback decides to do … -/
+theorem added_namespace_is_live (fx : Bool) (s : MSt) (ns : Nat) :
+    ∃ s', step fx s (.nsStore ns) = some s' ∧ ns ∈ s'.live := by
+  by_cases h : s.varying.any (·.1 == ns) <;> simp [step, h]
+
+/-- … and a Deleted one is not, whatever the callback decides to do. -/
+theorem deleted_namespace_is_not_live (fx : Bool) (s s' : MSt) (ns : Nat)
+    (h : step fx s (.nsDel ns) = some s') : ns ∉ s'.live := by
+  simp only [step] at h
+  split at h
+  · simp at h
+  · split at h <;> (simp only [Option.some.injEq] at h; subst h; simp)
+
+/-- Non-vacuity: a namespace that existed at start is deleted after the unlock and created again
+under the same name (then another one appears): both are watched, unlocked. -/
+example :
+    let s := run true (initial [] [1])
+      [.ea, .ea, .ea, .ea, .ea, .nsDel 1, .nsStore 1, .nsRead 1, .nsStore 2, .nsRead 2, .nsDel 2]
+    Settled s ∧ LiveWatched s ∧ s.live = [1] ∧ s.varying = [(1, true)] ∧ s.cancel = [1] := by decide
+
+/-- What the invariant `Tracks` excludes: were the add callback to consult the cancel index and the
+delete callback to leave its entry behind (state reached: informers gone, cancel entry still there),
+a namespace that comes back would be ignored. Shown on a model state, not a schedule of the code. -/
+example : ¬ Tracks { varying := [], cancel := [1], live := [1] } := by
+  intro t; have := t.watched 1 (by simp); simp [keys] at this
+
 end ShellOp.MonitorEnable.C01
+
+
+/-! # Operator level: which bindings the success of a (combined) Synchronization run unlocks
+
+`taskHandleHookRun` unlocks the monitors named by `hookMeta.MonitorIDs`, which it takes from the
+result of `combineBindingContextForHook` (model: `Model/Combine`, proved equal to the list
+specification in `Props/C07`). -/
+namespace ShellOp.Combine.C01
+
+open ShellOp.Combine ShellOp.Combine.Spec
+
+/-- Every task carries its own monitors (each kubernetes binding has a monitor of its own). -/
+def OwnMonitors (l : List Task) : Prop :=
+  ∀ a ∈ l, ∀ b ∈ l, a.id ≠ b.id → ∀ m ∈ a.mons, m ∉ b.mons
+
+/-- **C01 (no unlock before the binding's own Synchronization).** Whatever the queue behind the
+Synchronization task `t` looks like, whatever the stop-combine predicate and whatever other
+goroutines append meanwhile: the monitor ids the combined run returns — the ones that are unlocked
+when the run succeeds — contain no monitor of a task that stays in the queue. A binding whose
+Synchronization task was not merged into this run (combining stopped at it or before it) is still
+locked after it. -/
+theorem unlock_only_combined (qs : QSet) (t : Task) (rest : List Task) (f : Option (Task → Bool))
+    (apps : List (Nat × List Task))
+    (hq : qs.get t.queue = some (t :: rest)) (hm : t.hasMeta = true)
+    (nd : ((t :: rest).map (·.id)).Nodup)
+    (fresh : ∀ a ∈ appsFor apps t.queue, a.id ∉ (t :: rest).map (·.id))
+    (own : OwnMonitors (t :: rest))
+    (ctxs : List Ctx) (mons : List Nat) (qs' : QSet)
+    (h : combineGo qs (some t.queue) t f (appendEnv apps) = (.res ctxs mons, qs')) :
+    ∀ tsk ∈ rest.dropWhile (combinable t f), ∀ m ∈ tsk.mons, m ∉ mons := by
+  rw [C07.concurrent_append_safe qs t rest f apps hq hm nd fresh] at h
+  simp only [C07.specOutcome, Prod.mk.injEq] at h
+  by_cases he : merged t f rest = []
+  · simp [he] at h
+  · simp only [he, if_false, Outcome.res.injEq] at h
+    obtain ⟨⟨_, hmons⟩, _⟩ := h
+    intro tsk htsk m hm' hin
+    have hsplit := List.takeWhile_append_dropWhile (p := combinable t f) (l := rest)
+    have htr : tsk ∈ rest := by rw [← hsplit]; exact List.mem_append_right _ htsk
+    simp only [List.map_cons, List.nodup_cons, List.mem_map, not_exists, not_and] at nd
+    rw [← hmons] at hin
+    simp only [monitors, List.mem_append, List.mem_flatMap] at hin
+    rcases hin with hin | ⟨x, hx, hin⟩
+    · -- a monitor of the head task itself
+      have hne : t.id ≠ tsk.id := fun e => nd.1 tsk htr e.symm
+      exact own t (List.mem_cons_self) tsk (List.mem_cons_of_mem _ htr) hne m hin hm'
+    · -- a monitor of a merged task: it stands in the prefix, `tsk` in the rest
+      have hxr : x ∈ rest := by rw [← hsplit]; exact List.mem_append_left _ hx
+      have hnd2 : ((List.takeWhile (combinable t f) rest ++ List.dropWhile (combinable t f) rest).map (·.id)).Nodup := by
+        rw [hsplit]; exact nd.2
+      rw [List.map_append, List.nodup_append] at hnd2
+      have hne : x.id ≠ tsk.id :=
+        hnd2.2.2 x.id (List.mem_map.mpr ⟨x, hx, rfl⟩) tsk.id (List.mem_map.mpr ⟨tsk, htsk, rfl⟩)
+      exact own x (List.mem_cons_of_mem _ hxr) tsk (List.mem_cons_of_mem _ htr) hne m hin hm'
+
+/-- Non-vacuity: two bindings of one group, then a binding with `allowFailure: true` at which
+combining stops: monitors 7 and 8 are returned, 9 (the task that stays in the queue) is not. -/
+example : combineGo [(0, [{ id := 1, ctxs := [⟨1, 0, 5⟩], mons := [7], group := 5, btype := 2 },
+      { id := 2, ctxs := [⟨2, 0, 5⟩], mons := [8], group := 5, btype := 2 },
+      { id := 3, ctxs := [⟨3, 0, 0⟩], mons := [9], allowFailure := true, btype := 2 }])] (some 0)
+      { id := 1, ctxs := [⟨1, 0, 5⟩], mons := [7], group := 5, btype := 2 }
+      (some fun tsk => tsk.allowFailure != false) id
+    = (.res [⟨2, 0, 5⟩] [7, 8],
+       [(0, [{ id := 1, ctxs := [⟨1, 0, 5⟩], mons := [7], group := 5, btype := 2 },
+             { id := 3, ctxs := [⟨3, 0, 0⟩], mons := [9], allowFailure := true, btype := 2 }])]) := by
+  decide
+
+end ShellOp.Combine.C01
+
+
+/-! # Hook-run level: the snapshot reads of the Synchronization run itself
+
+Quantifier item (b): "snapshot reads by the Synchronization run itself". Every read of a still-locked
+binding drops the informer's event buffer; by `delivered_since_last_read` the events delivered after
+the unlock are those fired since the LAST such read. So the view the hook is given must be the view
+of the last read the run made. `UpdateSnapshots` (model `Model/SnapshotCache`) guarantees more: one
+read per binding per run, and every view handed out is that read's. -/
+namespace ShellOp.SnapshotCache.C01
+
+open ShellOp.SnapshotCache
+
+/-- **C01 (one read per binding per hook run).** For any list of binding contexts refreshed for one
+hook run (combined Synchronizations, groups, self-includes, includes of other bindings) and whatever
+the cluster does between two reads (`snap k b` is what the k-th read returns): no binding is read
+twice. -/
+theorem run_reads_each_binding_once (snap : Nat → Nat → View) (ctxs : List BC) :
+    (updateSnapshots snap ctxs).1.calls.Nodup :=
+  (updateSnapshots_spec snap ctxs {} [] (ok_init snap) (by simp)).1.nodup
+
+/-- **C01 (the hook sees the view of that one read).** Every view of binding `b` handed to the hook
+in this run — `snapshots[b]` of any context, `objects` of a Synchronization context of `b` — is
+what the single read number `k` of `b` returned; `k` is the only position of `b` in the read log.
+In particular it is the LAST read of `b` by this run, the one `delivered_since_last_read` counts
+from. -/
+theorem run_hands_out_the_single_read (snap : Nat → Nat → View) (ctxs : List BC) :
+    let r := updateSnapshots snap ctxs
+    ∀ o ∈ r.2,
+      (∀ p ∈ o.snaps, ∃ k, r.1.calls[k]? = some p.1 ∧ p.2 = snap k p.1 ∧
+          ∀ j, r.1.calls[j]? = some p.1 → j = k) ∧
+      (∀ v, o.objects = some v → ∃ k, r.1.calls[k]? = some o.binding ∧ v = snap k o.binding ∧
+          ∀ j, r.1.calls[j]? = some o.binding → j = k) := by
+  intro r o ho
+  obtain ⟨hok, hout⟩ := updateSnapshots_spec snap ctxs {} [] (ok_init snap) (by simp)
+  have uniq : ∀ (b k : Nat), r.1.calls[k]? = some b → ∀ j, r.1.calls[j]? = some b → j = k := by
+    intro b k hk j hj
+    obtain ⟨hkl, hkv⟩ := List.getElem?_eq_some_iff.mp hk
+    obtain ⟨hjl, hjv⟩ := List.getElem?_eq_some_iff.mp hj
+    exact (List.getElem_inj (h₀ := hjl) (h₁ := hkl) hok.nodup).mp (by rw [hjv, hkv])
+  constructor
+  · intro p hp
+    obtain ⟨k, hk, hv⟩ := hok.fromCall p.1 p.2 ((hout o ho).1 p hp)
+    exact ⟨k, hk, hv, uniq p.1 k hk⟩
+  · intro v hv
+    obtain ⟨k, hk, hvv⟩ := hok.fromCall o.binding v ((hout o ho).2 v hv)
+    exact ⟨k, hk, hvv, uniq o.binding k hk⟩
+
+/-- Non-vacuity: a grouped binding (includes itself) whose first read is EMPTY while the cluster
+changes right after it: one read, `snapshots` and `objects` both show that read. -/
+example :
+    updateSnapshots (fun k _ => if k = 0 then [] else [1]) [⟨7, [7], true⟩]
+      = ({ cache := [(7, [])], calls := [7] }, [⟨7, [(7, [])], some []⟩]) := by decide
+
+/-- … and two combined contexts that include each other's bindings: two reads, shared views. -/
+example :
+    (updateSnapshots (fun k b => [10 * k + b]) [⟨1, [1, 2], true⟩, ⟨2, [1, 2], true⟩]).1.calls = [1, 2] := by
+  decide
+
+end ShellOp.SnapshotCache.C01
